@@ -293,8 +293,147 @@ func runC11(c *Ctx) {
 		c11One(c, r, idx)
 	})
 	if c.ViolationCount() == 0 {
+		c11BigFiles(c)
+	}
+	if c.ViolationCount() == 0 {
 		c11Concurrent(c)
 	}
+}
+
+// c11BigFiles: list files much larger than any read buffer (up to 1500 lines), most with lines
+// of one fixed width (entry, padding, terminator) so that entries sit at the same offsets in
+// consecutive blocks of the file, and with entries whose text begins with the text of another
+// entry ("domain:a.example" / "domain:a.example.cdn.test") placed at block-related distances.
+// Oracle: every entry of the list matches its own name (and, for domain: entries, a subdomain),
+// names under a TLD no entry has never match, and the same entries loaded in reversed line
+// order give the same answers.
+func c11BigFiles(c *Ctx) {
+	nFiles := c.N(48, 600)
+	parallelFor(nFiles, 0, func() bool { return c.ViolationCount() >= 5 }, func(idx int) {
+		r := gen.New(c.Seed, "c11big", idx)
+		width := gen.Pick(r, []int{32, 64, 64, 128, 0}) // 0: lines of their natural length
+		stride := 64
+		if width > 0 {
+			stride = 4096 / width
+		}
+		nLines := r.Range(3*stride, 3*stride+1000)
+		nameLen := 14
+		if width == 32 {
+			nameLen = 9
+		}
+		type ent struct {
+			full bool
+			name string
+		}
+		ents := make([]*ent, nLines)
+		mkBase := func(i int) string {
+			const al = "abcdefghijklmnopqrstuvwxyz0123456789"
+			b := make([]byte, 0, nameLen)
+			for len(b) < nameLen-3 {
+				b = append(b, al[r.Intn(len(al))])
+			}
+			return string(b) + "." + string(al[i%26]) + string(al[(i/26)%26])
+		}
+		offs := []int{1, stride - 1, stride - 1, stride, stride + 1, 2*stride - 1, 2, stride / 2}
+		for i := 0; i < nLines; i++ {
+			if ents[i] == nil {
+				ents[i] = &ent{full: r.P(0.2), name: mkBase(i)}
+			}
+			if r.P(0.35) {
+				j := i + gen.Pick(r, offs)
+				if j < nLines && ents[j] == nil {
+					// same kind, so that the line's text begins with the text of line i
+					ents[j] = &ent{full: ents[i].full, name: ents[i].name + "." + gen.Pick(r, []string{"cdn", "x", "edge7"}) + ".test"}
+				}
+			}
+		}
+		lineOf := func(e *ent) string {
+			l := "domain:" + e.name
+			if e.full {
+				l = "full:" + e.name
+			}
+			if width == 0 {
+				return l + "\n"
+			}
+			pad := width - 1 - len(l)
+			if pad < 0 {
+				return l + "\n"
+			}
+			switch {
+			case pad >= 2 && r.P(0.5):
+				return l + " #" + strings.Repeat("-", pad-2) + "\n"
+			default:
+				return l + strings.Repeat(" ", pad) + "\n"
+			}
+		}
+		var fwd strings.Builder
+		lines := make([]string, nLines)
+		for i, e := range ents {
+			lines[i] = lineOf(e)
+			fwd.WriteString(lines[i])
+		}
+		var rev strings.Builder
+		for i := nLines - 1; i >= 0; i-- {
+			rev.WriteString(lines[i])
+		}
+		load := func(text string) *domainmatcher.MixMatcher {
+			m := domainmatcher.NewMixMatcher()
+			if err := domainmatcher.LoadMixMatcherFromReader(m, strings.NewReader(text)); err != nil {
+				c.Violation("load-error:big-file", fmt.Sprintf("a list of %d well-formed lines failed to load: %v", nLines, err), map[string]any{"file": idx, "width": width})
+				return nil
+			}
+			return m
+		}
+		mf, mr := load(fwd.String()), load(rev.String())
+		if mf == nil || mr == nil {
+			return
+		}
+		fullNames := map[string]bool{}
+		domNames := map[string]bool{}
+		for _, e := range ents {
+			if e.full {
+				fullNames[e.name] = true
+			} else {
+				domNames[e.name] = true
+			}
+		}
+		covered := func(name string) bool {
+			if fullNames[name] {
+				return true
+			}
+			for n := name; ; {
+				if domNames[n] {
+					return true
+				}
+				k := strings.IndexByte(n, '.')
+				if k < 0 {
+					return false
+				}
+				n = n[k+1:]
+			}
+		}
+		nEval := 0
+		for i, e := range ents {
+			probes := []string{e.name, "www." + e.name, e.name + ".nomatch", "www." + e.name[1:]}
+			for _, pn := range probes {
+				want := covered(pn)
+				w := c11Wire(splitLabels(pn))
+				for k, m := range []*domainmatcher.MixMatcher{mf, mr} {
+					nEval++
+					if got := m.Match(w); got != want {
+						ord := []string{"file order", "reversed line order"}[k]
+						c.Violation("mismatch:big-file", fmt.Sprintf("list of %d lines (line width %d): entry on line %d is %q; Match(%q)=%v but the entries of the list say %v (%s)", nLines, width, i+1, strings.TrimRight(lines[i], "\n"), pn, got, want, ord),
+							map[string]any{"file": idx, "width": width, "line": i + 1, "entry": lines[i], "probe": pn, "order": ord, "prev_line": lines[max(i-1, 0)]})
+						return
+					}
+				}
+			}
+		}
+		c.Ev.Eval(nEval)
+		c.Ev.Count("big_files", 1)
+		c.Ev.Count("big_file_lines", int64(nLines))
+		c.Ev.Distinct("big-file", width, nLines/200)
+	})
 }
 
 func c11Perms(n int) [][]int {
